@@ -125,7 +125,7 @@ def graph_ints(cache, limit=100000):
     for f, cs in zip(fobjs, per_f):
         out += [f.freq, ref(fidx, f.pre), ref(fidx, f.nxt), ref(cidx, f.cache_head), ref(cidx, f.cache_tail), len(cs)]
         for cn in cs:
-            out += [cn.key, cn.content, ref(fidx, cn.freq_node), ref(cidx, cn.pre), ref(cidx, cn.nxt),
+            out += [getattr(cn.key, "key_id", cn.key), cn.content, ref(fidx, cn.freq_node), ref(cidx, cn.pre), ref(cidx, cn.nxt),
                     ref(cidx, cache.cache.get(cn.key))]
     return out
 
@@ -583,50 +583,126 @@ class _RecLock:
         return self._l.locked()
 
 
-def lock_monitor(ctx, nseq):
-    """Behavioural lock discipline: during get/set every access to the key
-    table happens while the cache's lock is held by the calling thread."""
-    from deepdiff.lfucache import LFUCache
-    viol = []
+NODE_FIELDS = {"CacheNode": ("key", "content", "freq_node", "pre", "nxt"),
+               "FreqNode": ("freq", "pre", "nxt", "cache_head", "cache_tail"),
+               "LFUCache": ("cache", "capacity", "freq_link_head")}
 
-    class Proxy(dict):
-        pass
 
-    def guard(name):
-        orig = getattr(dict, name)
+class HeapMonitor:
+    """Observes, on the real code, the hypothesis of the linearizability theorem
+    (C18_conc_accesses_under_lock): EVERY access to the shared heap made by get / set -
+    every read or write of a field of a CacheNode / FreqNode, of LFUCache.cache /
+    .capacity / .freq_link_head, and every operation on the key table - happens while the
+    cache's lock is held by the accessing thread.  CacheNode / FreqNode are replaced (in this
+    process only) by recording subclasses, the cache is a recording subclass of LFUCache,
+    the key table a recording dict, the lock a recording lock.  `accesses` / `outside`
+    count what was seen while a thread was inside a get / set call."""
 
-        def f(self, *a, **k):
-            if self.mon["active"] and self.lock.held_by != threading.get_ident():
-                viol.append(name)
-            return orig(self, *a, **k)
-        return f
-    for name in ("__getitem__", "__setitem__", "__contains__", "pop", "__len__", "__delitem__"):
-        setattr(Proxy, name, guard(name))
-    n = 0
-    for _ in range(nseq):
-        cap, ops = gen_random(ctx.rng, 30)
-        c = LFUCache(cap)
-        lk = _RecLock()
-        c.lock = lk
-        px = Proxy()
-        px.lock = lk
-        px.mon = {"active": False}
-        c.cache = px
-        for kind, k, v in ops:
-            px.mon["active"] = True
+    def __init__(self):
+        import deepdiff.lfucache as L
+        self.L = L
+        self.tl = threading.local()
+        self.accesses = 0
+        self.calls = 0
+        self.outside = []
+        mon = self
+
+        def seen(obj_lock, what):
+            if getattr(mon.tl, "active", False):
+                mon.accesses += 1
+                if obj_lock is None or obj_lock.held_by != threading.get_ident():
+                    mon.outside.append(what)
+
+        def recording(base, kind, lock_of):
+            fields = NODE_FIELDS[kind]
+
+            class Rec(base):
+                def __getattribute__(self, name):
+                    if name in fields:
+                        seen(lock_of(self), kind + "." + name + " (read)")
+                    return object.__getattribute__(self, name)
+
+                def __setattr__(self, name, value):
+                    if name in fields:
+                        seen(lock_of(self), kind + "." + name + " (write)")
+                    object.__setattr__(self, name, value)
+            Rec.__name__ = base.__name__
+            return Rec
+        self.cur_lock = [None]          # nodes do not know their cache: one monitored cache at a time
+        self.CacheNode = recording(L.CacheNode, "CacheNode", lambda o: mon.cur_lock[0])
+        self.FreqNode = recording(L.FreqNode, "FreqNode", lambda o: mon.cur_lock[0])
+        self.LFUCache = recording(L.LFUCache, "LFUCache", lambda o: mon.cur_lock[0])
+
+        class Table(dict):
+            pass
+
+        def guard(name):
+            orig = getattr(dict, name)
+
+            def f(self, *a, **k):
+                seen(mon.cur_lock[0], "key table " + name)
+                return orig(self, *a, **k)
+            return f
+        for name in ("__getitem__", "__setitem__", "__contains__", "pop", "__len__", "__delitem__", "get", "items", "values", "keys", "__iter__"):
+            setattr(Table, name, guard(name))
+        self.Table = Table
+
+    def __enter__(self):
+        self.saved = (self.L.CacheNode, self.L.FreqNode)
+        self.L.CacheNode, self.L.FreqNode = self.CacheNode, self.FreqNode
+        return self
+
+    def __exit__(self, *a):
+        self.L.CacheNode, self.L.FreqNode = self.saved
+
+    def cache(self, cap, lock):
+        c = self.LFUCache(cap)
+        c.lock = lock
+        c.cache = self.Table()
+        self.cur_lock[0] = lock
+        return c
+
+    def call(self, c, op, key=None):
+        """one monitored get / set; returns the output (None for not_found / a set)"""
+        from deepdiff.helper import not_found
+        kind, k, v = op
+        key = k if key is None else key
+        self.tl.active = True
+        try:
+            self.calls += 1
             if kind == "get":
-                c.get(k)
-            else:
-                c.set(k, value=v)
-            px.mon["active"] = False
-            n += 1
-        if lk.acquisitions < len(ops):
-            viol.append("operation ran without taking the lock")
-        if viol:
-            ctx.fail({"capacity": cap, "ops": ops, "unlocked_access": sorted(set(viol))},
-                     "LFUCache.get/set touches the key table without holding the lock (concurrent use can corrupt it)")
-            break
-    ctx.note("lock_monitor_ops", n)
+                r = c.get(key)
+                return None if r is not_found else r
+            c.set(key, value=v)
+            return None
+        finally:
+            self.tl.active = False
+
+
+def lock_monitor(ctx, nseq):
+    """Lock discipline on random sequential sequences (see HeapMonitor)."""
+    with HeapMonitor() as mon:
+        for _ in range(nseq):
+            cap, ops = gen_random(ctx.rng, 30)
+            lk = _RecLock()
+            c = mon.cache(cap, lk)
+            for op in ops:
+                mon.call(c, op)
+            if lk.acquisitions < len(ops):
+                mon.outside.append("operation ran without taking the lock")
+            if mon.outside:
+                ctx.fail({"capacity": cap, "ops": ops, "unlocked_access": sorted(set(mon.outside))},
+                         "LFUCache.get/set touches the shared structure without holding the lock (concurrent use can corrupt it): "
+                         + ", ".join(sorted(set(mon.outside))[:4]))
+                break
+    ctx.note("lock_monitor_ops", mon.calls)
+    DISCIPLINE["calls"] += mon.calls
+    DISCIPLINE["heap_accesses_observed"] += mon.accesses
+    DISCIPLINE["heap_accesses_outside_lock"] += len(mon.outside)
+
+
+# what the recording monitors saw in this run (written to the evidence by run())
+DISCIPLINE = {"calls": 0, "heap_accesses_observed": 0, "heap_accesses_outside_lock": 0, "calls_under_forced_overlap": 0}
 
 
 def threaded(ctx, rounds, nthreads=8, nops=4000):
@@ -796,6 +872,165 @@ def forced_overlap(ctx):
                   label="threads_forced_overlap_vs_model")
 
 
+# ---- forced interleavings against the interleaving semantics (LfuConcModel.v) ----
+
+class _LogLock(_RecLock):
+    """Recording lock that also (1) logs (thread index, call) at every acquisition - the
+    linearization points of C18_conc_linearizable - and (2) can park ONE thread right
+    BEFORE its acquisition: whatever get / set did before taking the lock has then happened,
+    and the other thread's calls run in between."""
+
+    def __init__(self, park_idx=None):
+        super().__init__()
+        self.log = []
+        self.who = {}                    # thread ident -> (index, call)
+        self.park_idx = park_idx
+        self.at_acquire = threading.Event()
+        self.go = threading.Event()
+
+    def acquire(self, *a, **k):
+        me = threading.get_ident()
+        w = self.who.get(me)
+        if w is not None and w[0] == self.park_idx and not self.at_acquire.is_set():
+            self.at_acquire.set()
+            self.go.wait(10)
+        r = _RecLock.acquire(self, *a, **k)
+        if r:
+            self.log.append(w)
+        return r
+
+    __enter__ = acquire
+
+
+# (name, capacity, prefix (thread 0), calls of thread 1 (its first call is parked), calls of thread 2,
+#  mode: "inside" = thread 1 parks INSIDE its critical section (first hash of its key, lock held);
+#        "before" = thread 1 parks right before taking the lock)
+FORCED_SCHED = [
+    ("set-set-same-absent-key", 2, [], [("set", 1, 10)], [("set", 1, 20)], "before"),
+    ("get-vs-evicting-set", 2, [("set", 1, 10), ("set", 2, 20)], [("get", 1, 0)], [("set", 3, 30)], "before"),
+    ("get-vs-evicting-set-cap1", 1, [("set", 1, 10)], [("get", 1, 0)], [("set", 2, 20)], "before"),
+    ("set-vs-set-get", 2, [("set", 1, 10)], [("set", 2, 5)], [("set", 2, 6), ("get", 2, 0)], "before"),
+    ("evicting-set-vs-gets", 2, [("set", 1, 1), ("get", 1, 0), ("set", 2, 2)], [("set", 3, 3)], [("get", 2, 0), ("get", 2, 0)], "before"),
+    ("present-set-vs-evicting-sets", 2, [("set", 1, 10), ("set", 2, 20)], [("set", 1, 11), ("get", 1, 0)], [("set", 3, 30), ("set", 4, 40)], "before"),
+    ("inside-set-vs-overwrite", 4, [("set", 1, 10)], [("set", 1000, 7)], [("set", 1, 11), ("get", 1, 0)], "inside"),
+    ("inside-evicting-set-vs-get", 2, [("set", 1, 10), ("set", 2, 20)], [("set", 1000, 7)], [("get", 1, 0)], "inside"),
+    ("inside-missing-get-vs-set", 2, [("set", 1, 10)], [("get", 1000, 0), ("get", 1, 0)], [("set", 2, 20), ("set", 3, 30)], "inside"),
+]
+
+
+def forced_schedule_case(name, cap, prefix, ops1, ops2, mode, wait=0.15):
+    """Runs the scenario on the real LFUCache under the heap-access monitor.  Returns a dict:
+    log (thread index, call) in lock-acquisition order, outs per thread, final pointer graph,
+    walk() result or its error, errors, accesses outside the lock."""
+    res = {"errors": [], "outs": [[], [], []]}
+    with HeapMonitor() as mon:
+        lk = _LogLock(park_idx=1 if mode == "before" else None)
+        c = mon.cache(cap, lk)
+        me = threading.get_ident()
+        for op in prefix:
+            lk.who[me] = (0, op)
+            res["outs"][0].append(mon.call(c, op))
+        pk = ParkKey(ops1[0][1]) if mode == "inside" else None
+
+        def work(idx, ops, first_key):
+            try:
+                for i, op in enumerate(ops):
+                    lk.who[threading.get_ident()] = (idx, op)
+                    res["outs"][idx].append(mon.call(c, op, key=first_key if i == 0 else None))
+            except BaseException as e:          # the cache must never raise
+                res["errors"].append("thread %d: %s: %s" % (idx, type(e).__name__, e))
+        t1 = threading.Thread(target=work, args=(1, ops1, pk))
+        t1.start()
+        parked = (pk.inside if pk else lk.at_acquire).wait(10)
+        if not parked:
+            res["errors"].append("thread 1 never reached its parking point")
+        t2 = threading.Thread(target=work, args=(2, ops2, None))
+        t2.start()
+        t2.join(wait)                    # done, or blocked on the lock
+        (pk.release if pk else lk.go).set()
+        t1.join(10)
+        t2.join(10)
+        if t1.is_alive() or t2.is_alive():
+            res["errors"].append("a thread is still blocked after the release")
+        res["log"] = [[w[0], list(w[1])] for w in lk.log if w is not None]
+        res["outside"] = sorted(set(mon.outside))
+        res["accesses"] = mon.accesses
+        res["calls"] = mon.calls
+    try:
+        st = walk(c)
+        res["view"] = sorted([getattr(k, "key_id", k), v, f] for f, items in st for k, v in items)
+    except Exception as e:
+        res["errors"].append("structure inconsistent after the threads returned: %s: %s" % (type(e).__name__, e))
+        res["view"] = None
+    try:
+        res["graph"] = graph_ints(c, limit=200)
+    except Exception as e:
+        res["graph"] = None
+    return res
+
+
+def forced_schedules(ctx, only=None):
+    """Deterministic overlaps, each checked (1) against the property directly: nothing raised,
+    the structure is consistent, every returned value and the final (key, value, uses) are those
+    of the reference LFU run SEQUENTIALLY in the observed lock-acquisition order, no heap access
+    outside the lock; (2) against the interleaving semantics of LfuConcModel.v evaluated in Coq
+    under the corresponding schedule: acquisition log, values returned per thread, full pointer
+    graph of the shared heap."""
+    cases = []
+    for sc in FORCED_SCHED:
+        name, cap, prefix, ops1, ops2, mode = sc
+        if only and name != only:
+            continue
+        r = forced_schedule_case(*sc)
+        ctx.seen(("forced_schedule", name), nontrivial=True)
+        ctx.count("threads:forced_schedule")
+        DISCIPLINE["calls"] += r["calls"]
+        DISCIPLINE["calls_under_forced_overlap"] += len(ops1) + len(ops2)
+        DISCIPLINE["heap_accesses_observed"] += r["accesses"]
+        DISCIPLINE["heap_accesses_outside_lock"] += len(r["outside"])
+        case = {"kind": "forced_schedule", "name": name, "capacity": cap, "prefix": prefix, "thread1": ops1, "thread2": ops2,
+                "parked": "thread 1 " + ("inside its first call, holding the lock" if mode == "inside" else "right before taking the lock in its first call"),
+                "lock_acquisition_order": r.get("log")}
+        # (1) direct oracle: sequential reference in the observed acquisition order
+        progs = [list(prefix), list(ops1), list(ops2)]
+        ref = RefLFU(cap)
+        exp_outs = [[], [], []]
+        for idx, op in r["log"]:
+            kind, k, v = op
+            exp_outs[idx].append(ref.get(k) if kind == "get" else ref.set(k, v))
+        exp_view = sorted([k, e[0], e[1]] for k, e in ref.d.items())
+        per_thread = [[op for idx, op in r["log"] if idx == t] for t in range(3)]
+        if r["errors"]:
+            ctx.fail(dict(case, errors=r["errors"]), "overlapping get/set calls raised, blocked or left the cache inconsistent: " + r["errors"][0])
+        elif r["outside"]:
+            ctx.fail(dict(case, unlocked_access=r["outside"]),
+                     "LFUCache.get/set touches the shared structure without holding the lock: " + ", ".join(r["outside"][:4]))
+        elif per_thread != [[list(o) for o in pr] for pr in progs]:
+            ctx.fail(dict(case), "a call returned without ever taking the lock (calls per thread in the lock log: %r)" % (per_thread,))
+        elif r["outs"] != exp_outs or r["view"] != exp_view:
+            ctx.fail(dict(case, returned=r["outs"], expected_returned=exp_outs, contents=r["view"], expected_contents=exp_view),
+                     "not linearizable: values returned %r / final (key, value, uses) %r; the sequential execution in lock-acquisition "
+                     "order gives %r / %r" % (r["outs"], r["view"], exp_outs, exp_view))
+        # (2) the interleaving semantics under the corresponding schedule
+        if r.get("graph") is not None:
+            order = [idx for idx, _ in r["log"][len(prefix):]]
+            blocks = [(0, 1, len(prefix))]
+            if mode == "before":
+                blocks.append((1, 0, 1))                                   # thread 1: has called, not yet acquired
+                if order and order[0] == 2:
+                    blocks.append((2, 0, 4))                               # thread 2: call, acquire, first accesses
+            elif order and order[0] == 1:
+                blocks.append((1, 0, 2))                                   # thread 1: call + acquire, parked inside
+                blocks.append((2, 0, 3))                                   # thread 2: call, then waits for the lock
+            blocks += [(t, 1, 1) for t in order] + [(1, 1, 5), (2, 1, 5)]
+            expr = "conc_sx false %d [%s] [%s]" % (cap, "; ".join(coq_ops(pr) for pr in progs),
+                                                   "; ".join("(%d, %d, %d)%%nat" % b for b in blocks))
+            exp = [True, False, r["log"], [[("Some", o) if o is not None else None for o in outs] for outs in r["outs"]], r["graph"]]
+            cases.append((expr, exp, dict(case, what="real threads vs interleaving semantics (LfuConcModel.v)")))
+    ctx.coq_cases("lfu_forced_schedules", "From DD Require Import Lfu.LfuModel Lfu.LfuShow Lfu.LfuConcModel Lfu.LfuConcShow.\nLocal Open Scope Z_scope.",
+                  cases, shard=50, label="threads_forced_schedules_vs_interleaving_semantics")
+
+
 def linearizable_threads(ctx, rounds, nthreads=8, keys_per_thread=3, nops=250):
     """Each thread owns disjoint keys; capacity >= number of keys, so nothing can be evicted and the
     result is independent of the interleaving: (1) every get by the owner returns the owner's last
@@ -862,6 +1097,13 @@ def linearizable_threads(ctx, rounds, nthreads=8, keys_per_thread=3, nops=250):
                   label="threads_linearizable_vs_model")
 
 
+def discipline_note(ctx):
+    """hypothesis of C18_conc_linearizable as observed on lfucache.py in this run"""
+    ctx.note("lock_discipline", dict(DISCIPLINE, meaning="heap accesses = reads/writes of CacheNode / FreqNode fields, of LFUCache.cache / "
+                                     ".capacity / .freq_link_head and key-table operations made inside get/set calls; "
+                                     "outside_lock must be 0 (C18_conc_accesses_under_lock)"))
+
+
 def run(ctx):
     exhaustive(ctx, 3, 7 if ctx.thorough else 6)
     random_traces(ctx, 1500 if ctx.thorough else 300, 200)
@@ -870,7 +1112,9 @@ def run(ctx):
     lock_monitor(ctx, 300 if ctx.thorough else 60)
     threaded(ctx, 12 if ctx.thorough else 3)
     forced_overlap(ctx)
+    forced_schedules(ctx)
     linearizable_threads(ctx, 10 if ctx.thorough else 3)
+    discipline_note(ctx)
     ctx.sample({"exhaustive_example": {"capacity": 2, "ops": ops_of((1, 3, 0, 5, 2))}})
 
 
@@ -882,6 +1126,8 @@ def replay(ctx, data):
         print("replay: contents=%r expected=%r errors=%r" % (view, exp, errs))
         if errs or view != exp:
             ctx.fail(case, "lost or wrong update under concurrency: contents %r, every sequential order gives %r" % (view, exp))
+    elif case.get("kind") == "forced_schedule":
+        forced_schedules(ctx, only=case.get("name"))
     elif case.get("kind") == "linearizable_threads":
         forced_overlap(ctx)
         linearizable_threads(ctx, 5)
